@@ -12,14 +12,20 @@ direct apply); operator text = the plan line lower-cased; the exported trajector
 independently, is the same sequence.
 """
 from ..bridge import guard, Raised, parse_domain, parse_problem, observe_state, operator, write_tmp
-from ..core import same_state, show
+from ..core import same_state as _same_state, show
+
+
+def same_state(a, b):
+    """fluent values at 1e-9 relative tolerance: the mini-domains contain non-dyadic increments (0.00001)"""
+    return _same_state(a, b, exact=False)
+
 from ..gens import minidoms as md
 from ..refsem import RefState, applicable, successor, Inconsistent, RefUndefined
 from ..runner import CaseResult, digest
 from .. import sexp
 
 ID = "C04"
-RULE = ("domains: strips (10 calls), numeric (6 calls), cond (25 calls); all plans over the calls of a domain up to length "
+RULE = ("domains: strips (10 calls), numeric (7 calls), cond (26 calls); all plans over the calls of a domain up to length "
         "L (quick: 4,4,2; thorough: 5,5,3), executed in 4 modes + 3 plan-file layouts (as is, UPPER CASE with extra blanks, "
         "no final newline); one case = one (domain, first two steps) prefix family. states = distinct reference states "
         "reached; transitions = steps compared. non-trivial = a plan that mixes applicable and inapplicable steps")
@@ -145,6 +151,7 @@ def run_plan(r, w, plan, tags):
         if good:
             for i, s in enumerate(plan):
                 good &= tree[2 * i + 1] == ["operator:", [x.lower() for x in s]]
+                good &= tree[2 * i + 2][:1] == [":state"]  # only the first state is the initial state
                 try:
                     good &= same_state(RefState.from_state_tree(tree[2 * i + 2]), observe_state(tr[i].next_state))
                 except Exception:
